@@ -200,6 +200,7 @@ func Pipe(clientAddr, serverAddr string) (*Conn, *Conn) {
 
 // Net is a set of listeners addressed by "host:port".
 type Net struct {
+	Name      string // optional: makes client addresses unique across Nets ("client:<name>:<id>")
 	mu        sync.Mutex
 	listeners map[string]func(*Conn)
 	down      map[string]string // addr -> "refuse" | "blackhole"
@@ -252,7 +253,7 @@ func (n *Net) DialOwner(ctx context.Context, owner, address string) (net.Conn, e
 	}
 	n.mu.Lock()
 	id := len(n.conns) + 1
-	c, s := Pipe(fmt.Sprintf("client:%d", id), address)
+	c, s := Pipe(fmt.Sprintf("client:%s:%d", n.Name, id), address)
 	c.ID, s.ID, c.Owner, s.Owner = id, id, owner, owner
 	n.conns = append(n.conns, c)
 	n.mu.Unlock()
